@@ -78,7 +78,11 @@ class C09(InputProp):
         Uniquifier.random_string = "0123456789abcdef"
         self.Uniquifier = Uniquifier
         self.parse = uparser.parse_string
-        self.space = Product(TAGS, [c[0] for c in CONTEXTS], Seqs(SIGMA_B, 2 if tier == "quick" else 3, minlen=1), name="bodies")
+        bodies = Product(TAGS, [c[0] for c in CONTEXTS], Seqs(SIGMA_B, 2 if tier == "quick" else 3, minlen=1), name="bodies")
+        # the same region once inside <nowiki> and once for real on one page (one Uniquifier): markers must not be shared
+        twins = Product(["math", "pre", "source", "syntaxhighlight", "timeline"], ["real-first", "nowiki-first"],
+                        ["top", "bullet", "cell", "bold"], ["w", "x^2 ''a''"], name="twins")
+        self.space = Concat(bodies, twins)
         self.ctx = {c[0]: c for c in CONTEXTS}
         self.baselines = {}
 
@@ -106,10 +110,45 @@ class C09(InputProp):
         return self.baselines[key]
 
     def describe(self, case):
-        tag, ctxname, body = case
+        if case[0] == "twins":
+            return {"twin": case[1]}
+        tag, ctxname, body = case[1]
         return {"tag": tag, "context": ctxname, "body": "".join(body), "page": self.page(tag, ctxname, "".join(body))[0]}
 
+    def run_twin(self, c):
+        tag, order, ctxname, inner = c
+        real = "<%s>%s</%s>" % (tag, inner, tag)
+        quoted = "%s<nowiki>%s</nowiki>%s" % (S0, real, S1)
+        text = self.ctx[ctxname][1] % ((real + " and " + quoted) if order == "real-first" else (quoted + " and " + real))
+        try:
+            t = self.parse(title="Test", raw=text, wikidb=LangDB("en", {}), lang="en")
+        except Exception as e:
+            return {"key": "exc", "viol": [{"sig": "twin|raises:" + exc_signature(e), "msg": "parsing %r raised %r" % (text, e)}]}
+        out = []
+        leaves(t, out)
+        alltext = "".join(out)
+        viol = []
+        m = re.search(re.escape(S0) + "(.*)" + re.escape(S1), alltext, re.S)
+        if not m or m.group(1) != real:
+            viol.append({"sig": "twin|body:%s:%s" % (tag, order), "msg": "page %r: the nowiki region reads %r, written %r" % (text, m.group(1) if m else None, real)})
+        kinds = {"math": "Math", "pre": "PreFormatted", "timeline": "Timeline"}
+        n = [0]
+
+        def count(node):
+            nm = type(node).__name__
+            if nm == kinds.get(tag) or (tag in ("source", "syntaxhighlight") and nm == "TagNode" and getattr(node, "caption", "") == "source"):
+                n[0] += 1
+            for ch in node.children:
+                count(ch)
+        count(t)
+        if n[0] != 1:
+            viol.append({"sig": "twin|nodes:%s:%s" % (tag, order), "msg": "page %r has %d <%s> nodes, exactly one region is real" % (text, n[0], tag)})
+        return {"key": ("twin", tag, order, n[0]), "steps": 1, "viol": viol}
+
     def run_case(self, case):
+        fam, case = case
+        if fam == "twins":
+            return self.run_twin(case)
         tag, ctxname, lex = case
         body = "".join(lex)
         if ("</%s>" % tag) in body.lower() or "\x7f" in body:
